@@ -47,7 +47,11 @@ _INT = re.compile(r'^[+-]?(?:0|[1-9][0-9]*)$')
 _FLOAT = re.compile(r'^[+-]?[0-9]+\.[0-9]+$')   # str(float) == repr(float)
 _IDENT = re.compile(r'^[^\W\d]\w*(?:\.\w+)*$', re.UNICODE)
 
+# digits with a leading zero other than zeros alone are no Python literal
+NOT_LITERAL_TABLE = {'007', '01', '0.1.2'}
+
 LITERAL_TABLE = {
+    '00': '0', '1.50': '1.5', '0.00001': '1e-05', '2.0': '2.0',
     "'x'": 'x', '"x"': 'x', "''": '', '""': '', '1': '1', '-1': '-1',
     '1.5': '1.5', 'True': 'True', 'False': 'False', 'None': 'None',
     '0': '0', "'Member'": 'Member', '20': '20',
@@ -66,6 +70,8 @@ def literal_str(kind):
     literal; UNKNOWN otherwise (the caller must then not predict)."""
     if kind in LITERAL_TABLE:
         return LITERAL_TABLE[kind]
+    if kind in NOT_LITERAL_TABLE:
+        return NOT_LITERAL
     if _SIMPLE_STR.match(kind):
         s = kind
         # triple-quote starts make the reading differ: stay out of them
